@@ -1099,6 +1099,13 @@ class Sim:
             pixels = None
             attrs[tr.features.position_key] = [0.5] * len(self.fshape)
             nopix = True
+        if inv == "none_pos":
+            # invalid request: the position key is there, its value is None
+            if self.with_seg:
+                inv = None
+            else:
+                pk = tr.features.position_key
+                attrs[pk[0] if isinstance(pk, list) else pk] = None
         if inv == "bad_value":
             # invalid request: an attribute value that cannot be stored (a 0-d array)
             attrs["note"] = np.asarray(1.0)
